@@ -123,6 +123,10 @@ def build_world(ws):
         da = build_array(a, sizes)
         if a.get("coords", True):
             da = da.assign_coords({d: w.ds[d] for d in da.dims if d in w.ds.coords})
+        if a.get("extra_coords"):
+            da = da.assign_coords(run=3, **{"row_id": (da.dims[-1], np.arange(da.shape[-1]) * 10.0)})
+        if a.get("encoding"):
+            da.encoding.update(a["encoding"])
         if a.get("self_coord"):
             da = da.assign_coords({da.dims[0]: (da.dims[0], np.asarray(da.values), {"axis": "Z"})})
         w.arrays.append(da)
@@ -156,6 +160,7 @@ def snap_da(da):
         "attrs": _attrs(da.attrs),
         "coords": coords,
         "chunks": repr(da.chunks),
+        "encoding": sorted((str(k), repr(v)) for k, v in da.encoding.items()),
     }
 
 
@@ -548,7 +553,10 @@ def gen_simple_world(rng):
     for vn, vv in vars_.items():
         vv["attrs"] = {"units": "m", "long_name": vn}
     gspec = {"axes": axes, "extra": extra, "vars": vars_,
-             "dim_attrs": {d: {"axis": a, "standard_name": d} for a, ax in axes.items() for d in ax["pos"].values()}}
+             "dim_attrs": {d: ({"axis": a, "standard_name": d} if p == "center" else
+                               {"axis": a, "standard_name": d, "c_grid_axis_shift": -0.5})
+                           for a, ax in axes.items() for p, d in ax["pos"].items()},
+             "ds_attrs": {"title": "xsim world", "history": "built"}}
     axn = list(axes)
 
     def cdims(xpos="xc", ypos="yc", zpos="zc", t=True):
@@ -569,6 +577,10 @@ def gen_simple_world(rng):
          "name": None if rng.random() < 0.3 else "c0", "attrs": {"units": "K"}},
         {"dims": cdims(xpos="xg"), "data": {"gen": "randint", "seed": rng.randrange(10**6)}, "name": "u"},
     ]
+    if rng.random() < 0.4:
+        arrays[0]["extra_coords"] = True
+    if rng.random() < 0.4:
+        arrays[0]["encoding"] = {"dtype": "float32", "_FillValue": -999.0}
     if has_y:
         arrays.append({"dims": cdims(ypos="yg"), "data": {"gen": "randint", "seed": rng.randrange(10**6)}, "name": "v"})
     else:
@@ -613,6 +625,8 @@ def gen_simple_world(rng):
     addmap("coords", {a: dict(axes[a]["pos"]) for a in axn})
     addmap("metrics", {"$items": metrics})
     addmap("boundary_none_values", {a: None for a in axn})
+    # partial per-axis default shifts, re-used for several Grids
+    addmap("default_shifts", {"X": {"center": "left"}} if rng.random() < 0.5 else {a: {"center": "left"} for a in axn if a != "Z"})
     gkw = {"coords": {a: dict(axes[a]["pos"]) for a in axn}, "autoparse_metadata": False,
            "periodic": False, "boundary": {a: (rng.choice(nonper) if a == "Z" else rng.choice(bnd_words)) for a in axn},
            "fill_value": {a: float(rng.randint(0, 2)) for a in axn}, "metrics": {"$items": metrics}}
@@ -649,7 +663,9 @@ def gen_face_world(rng):
     has_w = rng.random() < 0.4
     if has_w:
         axes["W"] = {"n": 3, "pos": {"center": "wc", "left": "wg"}}
-    gspec = {"axes": axes, "extra": extra, "face": {"dim": "face", "n": F}}
+    gspec = {"axes": axes, "extra": extra, "face": {"dim": "face", "n": F},
+             "vars": {"dx_c": {"dims": ["xc"], "data": {"gen": "dyadic", "seed": 21}, "attrs": {"units": "m"}},
+                      "dx_g": {"dims": ["xg"], "data": {"gen": "dyadic", "seed": 22}, "attrs": {"units": "m"}}}}
     pre = ["face"] + (["t"] if extra else []) + (["wc"] if has_w else [])
     arrays = [
         {"dims": pre + ["yc", "xc"], "data": {"gen": "randint", "seed": rng.randrange(10**6)},
@@ -692,7 +708,8 @@ def gen_face_world(rng):
     addmap("periodic_list", ["X"])
     gkw = {"coords": {a: dict(axes[a]["pos"]) for a in axes}, "autoparse_metadata": False,
            "periodic": False, "boundary": rng.choice([rng.choice(words), {a: rng.choice(words) for a in axes}]),
-           "fill_value": float(rng.randint(0, 2)), "face_connections": fc_items(fcj)}
+           "fill_value": float(rng.randint(0, 2)), "face_connections": fc_items(fcj),
+           "metrics": {"$items": [[{"$tuple": ["X"]}, ["dx_c", "dx_g"]]]}}
     ws = {"kind": "faces", "gspec": gspec, "arrays": arrays, "nps": [], "maps": maps, "grids": [gkw], "ufuncs": [
         {"func": "fwd_diff", "kw": {"signature": "(X:center)->(X:left)", "boundary_width": {"X": {"$tuple": [1, 0]}}}}]}
     info = {"axn": ["X", "Y"] + (["W"] if has_w else []), "idx": {"c": 0, "u": 1, "v": 2}, "mi": mi, "has_y": True,
@@ -715,7 +732,7 @@ def gen_op(rng, ws, info):
     axn = [a for a in info["axn"] if a != "Z"]
     kinds = ["stencil", "stencil", "stencil", "multi", "cumsum", "Grid", "Grid", "pad", "ufunc", "apply"]
     if faces:
-        kinds += ["vector", "vector", "vector", "vector2d", "vector_multi", "padvec"]
+        kinds += ["vector", "vector", "vector", "vector2d", "vector_multi", "padvec", "face_metric"]
     else:
         kinds += ["metricop", "metricop", "get_metric", "interp_like", "mw", "mw", "set_metrics_bad"]
         if info["has_z"]:
@@ -761,6 +778,12 @@ def gen_op(rng, ws, info):
         if rng.random() < 0.5:
             kw["to"] = _maybe_shared(rng, info, "to_center_src", "left")
         return {"op": "method", "grid": g, "name": "cumsum", "pos": [{"$a": idx["c"]}, ax], "kw": kw}
+    if kind == "Grid" and not faces and rng.random() < 0.2:
+        # axes parsed from the dataset's own (COMODO) attributes
+        kw = {"periodic": rng.choice([True, False])}
+        if rng.random() < 0.5:
+            kw["boundary"] = _maybe_shared(rng, info, "boundary_total", rng.choice(words))
+        return {"op": "Grid", "pos": [], "kw": kw}
     if kind == "Grid":
         kw = {"coords": _maybe_shared(rng, info, "coords", copy.deepcopy(ws["grids"][0]["coords"])),
               "autoparse_metadata": False}
@@ -772,6 +795,8 @@ def gen_op(rng, ws, info):
             kw["boundary"] = rng.choice(words)
         if rng.random() < 0.4:
             kw["fill_value"] = _maybe_shared(rng, info, "fill_total", 1.0)
+        if "default_shifts" in mi and rng.random() < 0.4:
+            kw["default_shifts"] = {"$m": mi["default_shifts"]}
         if faces and rng.random() < 0.7:
             kw["face_connections"] = {"$m": mi["fc"]}
         if "metrics" in mi and rng.random() < 0.6:
@@ -801,6 +826,13 @@ def gen_op(rng, ws, info):
         if rng.random() < 0.3:
             kw["fill_value"] = _maybe_shared(rng, info, "fill_total", 1.0)
         return {"op": "apply_ufunc", "grid": g, "func": f, "pos": [{"$a": idx["c"]}], "kw": kw}
+    if kind == "face_metric":
+        # metric-aware calls on a face-connected grid: X has metrics, Y has none (refused)
+        name = rng.choice(["integrate", "average", "get_metric", "derivative"])
+        ax = rng.choice(["X", "X", "Y", ["X", "Y"]])
+        if name == "derivative":
+            ax = rng.choice(["X", "Y"])
+        return {"op": "method", "grid": g, "name": name, "pos": [{"$a": idx["c"]}, ax], "kw": {}}
     if kind == "vector":
         name = rng.choice(["diff", "interp", "min", "max"])
         comp = rng.choice(["u", "v"])
